@@ -85,10 +85,35 @@ def norm_set_order(t):
     return _SET_LITERAL.sub(sub, t)
 
 
+def norm_unicode_escape(t):
+    # D20: repr() of a str escapes code points the HOST's Unicode database does not know as printable, so a
+    # character assigned in Unicode 13-15 is printed literally by a new host and as \Uxxxxxxxx by an old one
+    out = []
+    for ch in t:
+        o = ord(ch)
+        if o < 0x80:
+            out.append(ch)
+        elif o <= 0xFF:
+            out.append("\\x%02x" % o)
+        elif o <= 0xFFFF:
+            out.append("\\u%04x" % o)
+        else:
+            out.append("\\U%08x" % o)
+    return "".join(out)
+
+
 def text_digests(t):
-    a = norm_code_repr(t)
-    return {"d": canon.digest(t), "n:code_repr": canon.digest(a), "n:set_order": canon.digest(norm_set_order(t)),
-            "n:code_repr+set_order": canon.digest(norm_set_order(a))}
+    """raw digest plus the digest after every combination of known-finding normalisers"""
+    names = ["code_repr", "set_order", "unicode_escape"]
+    funcs = {"code_repr": norm_code_repr, "set_order": norm_set_order, "unicode_escape": norm_unicode_escape}
+    out = {"d": canon.digest(t)}
+    for mask in range(1, 1 << len(names)):
+        sel = [n for k, n in enumerate(names) if mask & (1 << k)]
+        x = t
+        for n in sel:
+            x = funcs[n](x)
+        out["n:" + "+".join(sel)] = canon.digest(x)
+    return out
 
 
 def _walk_codes(co, iscode):
